@@ -95,6 +95,8 @@ static void run_case(long idx)
             if (tooMany) { if (P10) v_viol("progress:too-many-calls-to-finish-a-finite-stream", "%s calls=%ld", desc, tooMany); }
             else if (ZSTD_getErrorCode(cs) == ZSTD_error_memory_allocation) v_stat("memory_refusals", 1);
             else if (P02) v_viol("compress-stream-fails", "%s: %s", desc, ZSTD_getErrorName(cs));
+            else if (P10 && L.n) { hcall* h = &L.c[L.n - 1];    /* a call that was given writable output (and possibly input) answered with an error: no progress, and the stream can never be finished */
+                if (h->outSize > 0) v_viol("progress:call-with-output-room-fails", "%s call %zu dir=%d in=%zu/%zu room=%zu: %s", desc, L.n - 1, h->dir, h->inBefore, h->inSize, h->outSize, ZSTD_getErrorName(cs)); }
             hl_free(&L); goto out;
         }
         v_stat("stream_calls", (long)L.n);
@@ -214,6 +216,14 @@ static void run_case(long idx)
         size_t const extra = 100; uint8_t* src2 = (uint8_t*)malloc(ctotal + extra); memcpy(src2, dst, ctotal); memset(src2 + ctotal, 0x28, extra);   /* other data follows the frame */
         ZSTD_DStream* d = ZSTD_createDStream(); ZSTD_DCtx_setParameter(d, ZSTD_d_windowLogMax, 30);
         size_t const oc = 1 + vr_u64(&r, vr_chance(&r, 1, 3) ? 8 : 200000); uint8_t* ob = (uint8_t*)malloc(total + 16);
+        /* optional prior history on the same decoder: a frame read to some point - in half of the cases exactly to the point where the decoder keeps the last
+         * input byte "hostage" because output is still pending - and abandoned with a session reset / ZSTD_initDStream */
+        int const prior = (int)vr_u(&r, 3);
+        if (prior) { ZSTD_inBuffer in = { dst, ctotal, 0 }; size_t const room = 1 + vr_u(&r, vr_chance(&r, 1, 2) ? 16 : 3000); long const stopAfter = vr_chance(&r, 1, 2) ? -1 : (long)vr_u(&r, 200); long calls = 0; size_t rr = 1;
+            while (rr != 0 && !ZSTD_isError(rr) && calls < 4000000) { ZSTD_outBuffer o = { ob, V_MIN(room, total + 16), 0 }; rr = ZSTD_decompressStream(d, &o, &in); calls++;
+                if (stopAfter >= 0 && calls > stopAfter) break;
+                if (stopAfter < 0 && in.pos + 1 == ctotal && rr == 1) { v_stat("hint_runs_abandoned_at_hostage_point", 1); break; } }
+            if (prior == 1) ZSTD_DCtx_reset(d, ZSTD_reset_session_only); v_stat("hint_runs_after_abandoned_frame", 1); }
         size_t hint = ZSTD_initDStream(d); size_t ip = 0, op = 0, avail = 0; long guard = 0; int ok = 1; int hostage = 0;
         while (1) {
             if (hint > avail) { size_t const add = hint - avail; if (ip + avail + add > ctotal) { v_viol("hint:decoder-asks-for-bytes-beyond-the-frame", "%s hint=%zu at ip=%zu leftover=%zu frame=%zu", desc, hint, ip, avail, ctotal); ok = 0; break; } avail += add; }
